@@ -19,6 +19,19 @@ import (
 // leaking into an observation is > 170 years away from every predicted value.
 var T0 = time.Date(2200, 1, 1, 0, 0, 0, 0, time.UTC)
 
+// PastEpoch is true when the substitute clock was moved to the year 2000 (`-epoch past`): every deadline
+// derived from it has ALREADY passed on the wall clock, so a circuit that lets the wall clock's view of a
+// deadline into what it reports (property C12) shows it.  Only calls whose outcome does not depend on the
+// derived context's wall-clock state are generated in this mode (no Go entry point, no caller deadlines).
+var PastEpoch bool
+
+func SetEpoch(e string) {
+	if e == "past" {
+		PastEpoch = true
+		T0 = time.Date(2000, 1, 1, 0, 0, 0, 0, time.UTC)
+	}
+}
+
 // TS is a timestamp: T0 + S seconds + N nanoseconds (two fields so that
 // offsets beyond the int64 nanosecond range, where time.Time.Sub saturates,
 // can be expressed).
